@@ -1,0 +1,60 @@
+//go:build verif
+
+package wire
+
+// Contracts for the deductive verifier in /verif (govc). This file contains
+// comments only; it is compiled to nothing and is excluded without the tag.
+// Spec functions (ErrTextOK, Accepting, cycStep, ...) live in /verif/spec.
+
+// ---- message builders ---------------------------------------------------------
+
+//@ func readyForQuery
+//@   props C02 C05 C06 C12 C13 C01 C04
+//@   requires WriterReady(writer)
+//@   requires [status] {C02} status == 'I' || status == 'T' || status == 'E'
+//@   ensures [one-Z] result == nil ==> (#nZ == old(#nZ) + 1 && #nE == old(#nE) && #nOut == old(#nOut) + 1 && #last == 'Z' && #cyc == cycStep(old(#cyc), 'Z') && #failed == old(#failed))
+//@   ensures [failed] result != nil ==> (#nZ == old(#nZ) && #nE == old(#nE) && #nOut == old(#nOut) && #last == old(#last) && #cyc == old(#cyc) && #failed)
+//@   ensures [E-kept] #E_mask == old(#E_mask) && #E_S == old(#E_S) && #E_C == old(#E_C) && #E_M == old(#E_M) && #E_D == old(#E_D) && #E_H == old(#E_H) && #E_F == old(#E_F) && #E_L == old(#E_L) && #E_R == old(#E_R) && #E_n == old(#E_n)
+//@   ensures [fail-stop] old(#failed) ==> result != nil
+//@   ensures [err-kind] result != nil ==> !isExceeded(result)
+//@   ensures [writer-reset] writer.err == nil && writer.frame.#blen == 0
+//@   modifies WriterState(writer), Out()
+
+//@ func writeAuthType
+//@   props C02 C01 C12 C04
+//@   requires WriterReady(writer)
+//@   ensures [one-R] result == nil ==> (#nOut == old(#nOut) + 1 && #last == 'R' && #nZ == old(#nZ) && #nE == old(#nE) && #cyc == old(#cyc) && #failed == old(#failed) && #authR == status)
+//@   ensures [failed] result != nil ==> (#nZ == old(#nZ) && #nE == old(#nE) && #nOut == old(#nOut) && #failed && #authR == old(#authR))
+//@   ensures [fail-stop] old(#failed) ==> result != nil
+//@   ensures [err-kind] result != nil ==> !isExceeded(result)
+//@   ghostset #authR = status if result == nil
+//@   modifies WriterState(writer), Out(), #authR
+
+//@ func commandComplete
+//@   props C02 C05 C04
+//@   requires WriterReady(writer)
+//@   requires [nulfree-tag] {C02} nulfree(description)
+//@   ensures [one-C] result == nil ==> (#nOut == old(#nOut) + 1 && #last == 'C' && #nZ == old(#nZ) && #nE == old(#nE) && #cyc == cycStep(old(#cyc), 'C') && #failed == old(#failed))
+//@   ensures [failed] result != nil ==> (#nZ == old(#nZ) && #nE == old(#nE) && #nOut == old(#nOut) && #cyc == old(#cyc) && #failed)
+//@   ensures [fail-stop] old(#failed) ==> result != nil
+//@   modifies WriterState(writer), Out()
+
+//@ func ErrorCode
+//@   props C02 C17 C05 C06 C10 C13 C01 C04
+//@   requires WriterReady(writer)
+//@   requires [nulfree-text] {C02 C17} err != nil ==> ErrTextOK(err)
+//@   ensures [E-then-Z] result == nil ==> (#nE == old(#nE) + 1 && #nZ == old(#nZ) + 1 && #nOut == old(#nOut) + 2 && #last == 'Z' && #cyc == cycStep(cycStep(old(#cyc), 'E'), 'Z') && #failed == old(#failed))
+//@   ensures [failed] result != nil ==> (#failed && #nZ == old(#nZ) && old(#nE) <= #nE && #nE <= old(#nE) + 1 && old(#nOut) <= #nOut && #nOut <= old(#nOut) + 1)
+//@   ensures [fail-stop] old(#failed) ==> result != nil
+//@   ensures [err-kind] result != nil ==> !isExceeded(result)
+//@   ensures [nil-internal-fatal] {C17} (result == nil && err == nil) ==> (#E_S == "FATAL" && #E_C == "XX000" && #E_M == "unknown error, an internal process attempted to throw an error" && #E_mask == 7)
+//@   ensures [field-severity] {C17} (result == nil && err != nil) ==> #E_S == (specSeverity(err) == "" ? "ERROR" : specSeverity(err))
+//@   ensures [field-code] {C17} (result == nil && err != nil) ==> #E_C == specCode(err)
+//@   ensures [field-message] {C17} (result == nil && err != nil) ==> #E_M == errtext(err)
+//@   ensures [field-hint] {C17} (result == nil && err != nil) ==> (hasbit(#E_mask, 16) <==> specHint(err) != "") && (specHint(err) != "" ==> #E_H == specHint(err))
+//@   ensures [field-detail] {C17} (result == nil && err != nil) ==> (hasbit(#E_mask, 8) <==> specDetail(err) != "") && (specDetail(err) != "" ==> #E_D == specDetail(err))
+//@   ensures [field-source] {C17} (result == nil && err != nil) ==> ((hasbit(#E_mask, 32) <==> specHasSource(err)) && (hasbit(#E_mask, 64) <==> specHasSource(err)) && (hasbit(#E_mask, 128) <==> specHasSource(err)) && (specHasSource(err) ==> (#E_F == specSrcFile(err) && #E_L == itoa(specSrcLine(err)) && #E_R == specSrcFunc(err))))
+//@   ensures [field-constraint] {C17} (result == nil && err != nil) ==> (hasbit(#E_mask, 256) <==> specConstraint(err) != "") && (specConstraint(err) != "" ==> #E_n == specConstraint(err))
+//@   ensures [mandatory] {C17 C02} result == nil ==> (hasbit(#E_mask, 1) && hasbit(#E_mask, 2) && hasbit(#E_mask, 4))
+//@   ensures [writer-reset] writer.err == nil && writer.frame.#blen == 0
+//@   modifies WriterState(writer), Out(), #maxalloc, #nalloc
